@@ -32,9 +32,12 @@ Definition f_as_i64 (x : binary64) : Z :=
 Definition feq (x y : binary64) : bool :=
   match Binary.Bcompare 53 1024 x y with Some Eq => true | _ => false end.
 
-(* Base<Float,Integer>::value: Some(x as i64) when (x as i64) as f64 == x *)
+Definition flt (x y : binary64) : bool :=
+  match Binary.Bcompare 53 1024 x y with Some Lt => true | _ => false end.
+
+(* Base<Float,Integer>::value: Some(x as i64) when x < 2^63 and (x as i64) as f64 == x *)
 Definition f2i (x : binary64) : option Z :=
-  let t := f_as_i64 x in if feq (i2f t) x then Some t else None.
+  let t := f_as_i64 x in if flt x (i2f (2 ^ 63)) && feq (i2f t) x then Some t else None.
 
 (* order embedding of the bits (the one the harness uses for Intervals<f64>) *)
 Definition key_of_bits (b : Z) : Z := if b <? 2 ^ 63 then b else - (b - 2 ^ 63).
